@@ -136,7 +136,12 @@ func nonMatchingLevel(r *mrand.Rand, p *world.Platform) (world.Level, bool) {
 func richHonest(r *mrand.Rand) *world.World {
 	p := svnPlatform(r)
 	nrev := []int{0, 0, 1, 5, 50, 127, 128, 1000}[r.Intn(8)] // also CRLs whose DER needs long-form lengths
-	w := world.Honest(r, world.HonestOpts{Shape: honestShape(r), Platform: p, Revoked: nrev})
+	var ext func(p *world.Platform) []byte
+	if r.Intn(3) == 0 { // the SGX extension's elements are identified by OID: any order of the 18 TCB elements and of the top-level elements
+		seed := r.Int63()
+		ext = func(p *world.Platform) []byte { return permutedSgxExtension(p, mrand.New(mrand.NewSource(seed))) }
+	}
+	w := world.Honest(r, world.HonestOpts{Shape: honestShape(r), Platform: p, Revoked: nrev, SgxExt: ext})
 
 	if r.Intn(3) == 0 {
 		// serial numbers are scoped by issuer: the Root CA CRL may list the serial the leaf has under the platform CA, and the
@@ -257,4 +262,13 @@ func up(r *mrand.Rand, s string) string {
 		return strings.ToUpper(s)
 	}
 	return s
+}
+
+// permutedSgxExtension encodes p's SGX extension with its TCB elements and top-level elements in a random order.
+func permutedSgxExtension(p *world.Platform, r *mrand.Rand) []byte {
+	tcb := world.SgxTcbElems(p)
+	r.Shuffle(len(tcb), func(a, b int) { tcb[a], tcb[b] = tcb[b], tcb[a] })
+	top := world.SgxTopElems(p, tcb)
+	r.Shuffle(len(top), func(a, b int) { top[a], top[b] = top[b], top[a] })
+	return world.Seq(top...)
 }
